@@ -445,6 +445,19 @@ func (x *Exec) havocTarget(env *SpecEnv, st *State, mt ModTarget) {
 	switch t := e.(type) {
 	case EField:
 		base := x.evalVal(env, t.X)
+		if _, isIface := base.Typ.Underlying().(*types.Interface); isIface {
+			// ghost field of an interface-typed object
+			name := types.TypeString(base.Typ, func(p *types.Package) string { return p.Name() })
+			is, ok := x.DB.Ifaces[name]
+			if !ok {
+				panic(specErr("modifies %s: no interface specification for %s", mt.Text, name))
+			}
+			ga := x.ghostAddr(is, t.Name, base)
+			nv := x.declare("mg", x.S.SortOf(ga.RootT))
+			x.assume(x.typeInv(nv, ga.RootT, 0))
+			x.storeAddr(st, ga, nv)
+			return
+		}
 		pt := pointee(base.Typ)
 		if pt == nil {
 			panic(specErr("modifies %s: base is not a pointer", mt.Text))
@@ -492,6 +505,14 @@ func (x *Exec) invoke(fr *Frame, st *State, site ssa.Instruction, c *ssa.CallCom
 	var args []Val
 	for _, a := range c.Args {
 		args = append(args, x.val(fr, a))
+	}
+	// a method call on a nil interface value panics
+	// (not checked: the services under contract are wired with non-nil dependencies; the
+	// assumption is recorded, and it keeps counterexample models from choosing a nil
+	// dependency, which the replay would then "confirm" with a nil-dereference panic)
+	if recv.T.Sort == "Iface" && x.inSpec == 0 {
+		x.assumed["interface values whose methods are called are non-nil (dependency wiring; nil-interface panics are not checked)"] = true
+		x.assumeUnder(st.Guard, mkNot(mkEq(Term{app("i_typ", recv.T), "Int"}, intLit(0))))
 	}
 	if h, ok := ifaceCalls[name+"."+c.Method.Name()]; ok {
 		return h(x, fr, st, site, c, recv, args, rt)
